@@ -166,3 +166,40 @@ Lemma write_order_lemma :
   (lb_write_order = modelled_write_order \/
    lb_write_order = [WMkdir; WOpenTrunc; WSetLen; WCopy; WSync; WHook; WRename]).
 Proof. split; [reflexivity | first [left; reflexivity | right; reflexivity]]. Qed.
+
+(* ---------- every interleaving point of a write ---------- *)
+Lemma listing_stable_lemma f m t i c st : R f m -> wf_id i -> N.of_nat (length c) < 2 ^ 32 ->
+  st <> SRenamed -> forall t',
+  Permutation (lb_list (micro_state f t i c st) t') (lb_list f t') /\
+  Permutation (lb_list_with_size (micro_state f t i c st) t') (lb_list_with_size f t').
+Proof.
+  intros HR Hi Hc Hs t'. pose proof (micro_R f m t i c st HR Hi Hc) as H.
+  destruct st; try congruence;
+    (split; [eapply perm_trans; [apply list_perm; exact H | apply Permutation_sym, list_perm; assumption]
+            | eapply perm_trans; [apply sizes_perm_all; exact H | apply Permutation_sym, sizes_perm_all; assumption]]).
+Qed.
+
+(* ---------- ranged reads, explicitly ---------- *)
+Lemma ranged_read_lemma b off len :
+  (off + len <= N.of_nat (length b) ->
+     range_of b off len = Ok (firstn (N.to_nat len) (skipn (N.to_nat off) b)) /\
+     length (firstn (N.to_nat len) (skipn (N.to_nat off) b)) = N.to_nat len) /\
+  (N.of_nat (length b) < off + len -> 0 < len -> range_of b off len = Err) /\
+  (forall s, range_of b off len = Ok s -> length s = N.to_nat len).
+Proof.
+  unfold range_of. repeat split.
+  - destruct (N.leb_spec (off + len) (N.of_nat (length b))); [reflexivity | lia].
+  - rewrite firstn_length, skipn_length. lia.
+  - intros H1 H2. destruct (N.leb_spec (off + len) (N.of_nat (length b))); [lia|].
+    destruct (N.eqb_spec len 0); [lia | reflexivity].
+  - intros s. destruct (N.leb_spec (off + len) (N.of_nat (length b))).
+    + intro E. inv E. rewrite firstn_length, skipn_length. lia.
+    + destruct (N.eqb_spec len 0) as [->|]; intro E; inv E. reflexivity.
+Qed.
+
+Lemma od_calls_lemma : forall f, od_calls f = modelled_od_calls f.
+Proof. intro f. destruct f; reflexivity. Qed.
+Lemma od_layers_lemma : forallb passthrough od_layers = true.
+Proof. reflexivity. Qed.
+Lemma lb_calls_lemma : forall f, lb_calls f = modelled_lb_calls f.
+Proof. intro f. destruct f; reflexivity. Qed.
